@@ -298,6 +298,7 @@ type sample struct {
 	OpsAB      string
 	OpsBA      string
 	FirstClose string
+	Knobs      string `json:",omitempty"`
 }
 
 func opsString(ops []op) string {
@@ -316,7 +317,7 @@ func opsString(ops []op) string {
 }
 
 func (w *world) Run(t *rt.Tape, trace bool) *core.Result {
-	res := &core.Result{}
+	res := &core.Result{Reach: map[string]int{}}
 	core.BeginRun(t)
 	ab, smallAB := core.DrawDir(t, core.Caps)
 	ba, smallBA := core.DrawDir(t, core.Caps)
@@ -327,6 +328,22 @@ func (w *world) Run(t *rt.Tape, trace bool) *core.Result {
 	b.sendOps = genOps(t, 1, smallBA, first != 1)
 	a.recvOps = b.sendOps
 	b.recvOps = a.sendOps
+	// Buffer knobs (1 case in 3): the connection's internal buffers shrink to a
+	// few dozen bytes, so that every field and every payload crosses the write
+	// ring and the read window many times (the shipped 64 KiB / 1 MiB / 3 buffers
+	// are used otherwise). Only the C11 world does this: other users of p2p.Conn
+	// (circuit, ot) reserve space in WriteBuf directly and rely on its size.
+	knobs := ""
+	if t.Choose(rt.SGen, 3) == 0 {
+		nb := []int{1, 2, 3, 5}[t.Choose(rt.SGen, 4)]
+		wb := []int{16, 17, 31, 64, 100, 4096}[t.Choose(rt.SGen, 6)]
+		rb := []int{16, 17, 31, 64, 1000, 65536}[t.Choose(rt.SGen, 6)]
+		rt.SetKnob("p2p.numBuffers", nb)
+		rt.SetKnob("p2p.writeBufSize", wb)
+		rt.SetKnob("p2p.readBufSize", rb)
+		knobs = fmt.Sprintf("numBuffers=%d writeBufSize=%d readBufSize=%d", nb, wb, rb)
+		res.Reach["knobs.small-buffers"]++
+	}
 	// Fault mode (1 case in 6): one Write of A's transport fails once without
 	// moving anything (a write timeout); the transport works again afterwards.
 	// The stream then has a hole, so the only claim left is the narrow one that
@@ -346,7 +363,7 @@ func (w *world) Run(t *rt.Tape, trace bool) *core.Result {
 		ab.Faults = []simnet.Fault{{Kind: simnet.FaultWriteErr, Off: faultOff}}
 		b.drain = true
 	}
-	res.Sample = sample{AB: core.DescribeDir(ab), BA: core.DescribeDir(ba), OpsAB: opsString(a.sendOps), OpsBA: opsString(b.sendOps), FirstClose: []string{"A", "B"}[first]}
+	res.Sample = sample{AB: core.DescribeDir(ab), BA: core.DescribeDir(ba), OpsAB: opsString(a.sendOps), OpsBA: opsString(b.sendOps), FirstClose: []string{"A", "B"}[first], Knobs: knobs}
 	if faultMode {
 		res.Sample = struct {
 			sample
